@@ -1,0 +1,70 @@
+//go:build verif
+
+// Contracts for the deductive checker in /verif (comment-only; compiled only with -tags verif).
+
+package dastard
+
+// ---------------------------------------------------------------------------------------------
+// C09: group triggers -- connection edits act as a set; reported == used; Distribute is safe.
+//
+// Abstract view: Conn(b, s, r) <=> receiver r has source s.  The ghost array b.csum holds prefix sums
+// of the per-receiver source counts (csum[i] = number of connections into receivers < i), which ties
+// the nconnections counter (the fast-path gate of Distribute) to the real connection set.
+// ---------------------------------------------------------------------------------------------
+
+//@ ghost field TriggerBroker.csum intmap
+
+//@ pred Conn(b *TriggerBroker, s int, r int) := 0 <= r && r < b.nchannels && dom(b.sources[r], s)
+
+//@ pred InvBshape(b *TriggerBroker) := b.nchannels >= 0 && len(b.sources) == b.nchannels
+//@     && len(b.latestPrimaries) == b.nchannels && len(b.triggerCounters) == b.nchannels
+//@     && (forall i int :: {b.sources[i]} 0 <= i && i < b.nchannels ==> b.sources[i] != nil)
+//@     && (forall i int, j int :: {b.sources[i], b.sources[j]} 0 <= i && i < j && j < b.nchannels ==> b.sources[i] != b.sources[j])
+//@ pred InvBmaps(b *TriggerBroker) := (forall r int, s int :: {dom(b.sources[r], s)} 0 <= r && r < b.nchannels && dom(b.sources[r], s) ==> b.sources[r][s] && 0 <= s && s < b.nchannels && s != r)
+//@ pred InvBsum(b *TriggerBroker) := b.csum[0] == 0
+//@     && (forall i int :: {b.sources[i]} 0 <= i && i < b.nchannels ==> b.csum[i + 1] == b.csum[i] + len(b.sources[i]))
+//@ pred InvBmono(b *TriggerBroker) := (forall i int, j int :: {b.csum[i], b.csum[j]} 0 <= i && i <= j && j <= b.nchannels ==> b.csum[i] <= b.csum[j])
+//@     && b.nconnections == b.csum[b.nchannels]
+//@ pred InvB(b *TriggerBroker) := InvBshape(b) && InvBmaps(b) && InvBsum(b) && InvBmono(b)
+
+//@ func (*TriggerBroker).AddConnection
+//@   props C09
+//@   requires InvB(broker)
+//@   ensures inv: InvB(broker)
+//@   ensures set: forall s int, r int :: {dom(broker.sources[r], s)} Conn(broker, s, r) <==> (old(Conn(broker, s, r)) || (s == source && r == receiver && source != receiver && 0 <= source && source < broker.nchannels && 0 <= receiver && receiver < broker.nchannels))
+//@   ensures errors: (result != nil) <==> (source != receiver && !(0 <= source && source < broker.nchannels && 0 <= receiver && receiver < broker.nchannels))
+//@   modifies broker.nconnections, broker.csum, broker.sources[receiver][*]
+//@   ghost exit: broker.csum[i] := old(broker.csum[i]) + ite(i > receiver && source != receiver && 0 <= source && source < broker.nchannels && 0 <= receiver && receiver < broker.nchannels && !old(dom(broker.sources[receiver], source)), 1, 0)
+
+//@ func (*TriggerBroker).DeleteConnection
+//@   props C09
+//@   requires InvB(broker)
+//@   ensures inv: InvB(broker)
+//@   ensures set: forall s int, r int :: {dom(broker.sources[r], s)} Conn(broker, s, r) <==> (old(Conn(broker, s, r)) && !(s == source && r == receiver))
+//@   ensures errors: (result != nil) <==> !(0 <= receiver && receiver < broker.nchannels)
+//@   modifies broker.nconnections, broker.csum, broker.sources[receiver][*]
+//@   ghost exit: broker.csum[i] := old(broker.csum[i]) - ite(i > receiver && 0 <= receiver && receiver < broker.nchannels && old(dom(broker.sources[receiver], source)), 1, 0)
+
+//@ func (*TriggerBroker).isConnected
+//@   props C09
+//@   requires InvB(broker)
+//@   ensures result <==> Conn(broker, source, receiver)
+
+//@ func (*TriggerBroker).StopTriggerCoupling
+//@   props C09
+//@   requires InvB(broker)
+//@   ensures inv: InvB(broker)
+//@   ensures empty: result == nil && broker.nconnections == 0 && (forall s int, r int :: {dom(broker.sources[r], s)} !Conn(broker, s, r))
+//@   modifies broker.nconnections, broker.csum, broker.sources[*]
+//@   ghost exit: broker.csum[i] := 0
+//@   loop 1
+//@     invariant range: -1 <= rangeindex && rangeindex <= len(broker.sources) - 1
+//@     invariant done: forall j int :: {broker.sources[j]} 0 <= j && j <= rangeindex ==> broker.sources[j] != nil && fresh(broker.sources[j]) && allocated(broker.sources[j]) && len(broker.sources[j]) == 0
+//@     invariant distinct: forall j int, k int :: {broker.sources[j], broker.sources[k]} 0 <= j && j < k && k <= rangeindex ==> broker.sources[j] != broker.sources[k]
+//@     invariant rest: forall j int :: {broker.sources[j]} rangeindex < j && j < len(broker.sources) ==> broker.sources[j] == old(broker.sources[j])
+//@     modifies broker.sources[*]
+
+//@ func (*TriggerBroker).SourcesForReceiver
+//@   props C09
+//@   requires InvB(broker)
+//@   ensures (0 <= receiver && receiver < broker.nchannels ==> result == broker.sources[receiver]) && (!(0 <= receiver && receiver < broker.nchannels) ==> result == nil)
